@@ -458,6 +458,33 @@ C04_PodAffinity ==
             /\ ~\E x \in Pods \ {p} : WhereAtAll(x, i) # 0 /\ PodHasLabel(x, P(p).podAff[t].key, P(p).podAff[t].val)
 
 (***************************************************************************)
+(* C04 - topology constraints (scenario topology = label keys, coarsest     *)
+(* first). For a job with a required level L: every node it is placed on    *)
+(* carries all the topology's labels, and the nodes of its pods placed in   *)
+(* this cycle together with its pods that stay active lie in one domain at  *)
+(* level L and all coarser levels. A job naming a missing topology is not   *)
+(* placed. (Sub-group level constraints are not generated.)                 *)
+(***************************************************************************)
+HasTopo == "topo" \in DOMAIN scen /\ Len(scen.topo.levels) > 0
+TopoConstrained(j) == HasTopo /\ J(j).topo = scen.topo.name /\ J(j).topoReq >= 1 /\ J(j).topoReq <= Len(scen.topo.levels)
+HasAllTopoLabels(n) == \A k \in 1..Len(scen.topo.levels) : HasLabel(n, scen.topo.levels[k])
+\* where each pod of j ends up after the decisions so far: its newest bind / nomination, nowhere if
+\* its newest event is an eviction, else where it was active at cycle start
+FinalNode(p) == LET x == LastRel(p, Len(D)) IN
+                IF x = 0 THEN (IF ActiveAtStart(p) THEN S[p].node ELSE 0) ELSE IF EvictOK(x) THEN 0 ELSE D[x].n
+JobNodes(j) == {FinalNode(p) : p \in PodsOf(j)} \ {0}
+PlacedThisCycle(j) == \E i \in Dec : IsPlacement(i) /\ (BindAny(i) => D[i].ok = 1) /\ JobOf(D[i].p) = j
+C04_TopologyLabels ==
+  \A i \in Dec : (IsPlacement(i) /\ TopoConstrained(JobOf(D[i].p))) => (D[i].n \in Nodes /\ HasAllTopoLabels(D[i].n))
+C04_TopologyOneDomain ==
+  (Quiet /\ ~failed) => \A j \in Jobs : (TopoConstrained(j) /\ PlacedThisCycle(j)) =>
+     \A a, b \in JobNodes(j) : \A k \in 1..J(j).topoReq :
+        NodeLabel(a, scen.topo.levels[k]) = NodeLabel(b, scen.topo.levels[k])
+C04_MissingTopologyNotPlaced ==
+  \A i \in Dec : IsPlacement(i) =>
+     LET j == JobOf(D[i].p) IN ("topo" \in DOMAIN J(j) /\ J(j).topo # "") => (HasTopo /\ J(j).topo = scen.topo.name)
+
+(***************************************************************************)
 (* C13 (as observable on the Cache calls of real cycles): committing emits  *)
 (* each pod at most once per call kind and statement.                      *)
 (***************************************************************************)
